@@ -1,6 +1,6 @@
 (* Singleflight_proofs.v — invariants of the singleflight LTS over ALL accepted event lists
    (any number of threads and keys), and the wrapper-key lemmas. *)
-From V Require Import Base Base_proofs Singleflight.
+From V Require Import Base Base_proofs GoQuote GoQuote_proofs Singleflight.
 From Coq Require Import Lia Permutation.
 
 (* ---------- association lists ---------- *)
@@ -616,85 +616,6 @@ Proof.
   - inversion H; subst. destruct (IH b) as [E1 E2]; auto. subst. auto.
 Qed.
 
-Lemma split_on_no_sep sep s : ~ In sep s -> split_on sep s = [s].
-Proof.
-  induction s as [|c s IH]; intros H; simpl; [reflexivity|].
-  destruct (N.eqb c sep) eqn:E; [apply N.eqb_eq in E; subst; exfalso; apply H; left; reflexivity|].
-  rewrite IH; [reflexivity|]. intros Hin. apply H. right. exact Hin.
-Qed.
-
-Lemma split_on_app sep x rest : ~ In sep x -> split_on sep (x ++ sep :: rest) = x :: split_on sep rest.
-Proof.
-  induction x as [|c x IH]; intros H; simpl.
-  - rewrite N.eqb_refl. reflexivity.
-  - destruct (N.eqb c sep) eqn:E; [apply N.eqb_eq in E; subst; exfalso; apply H; left; reflexivity|].
-    rewrite IH; [reflexivity|]. intros Hin. apply H. right. exact Hin.
-Qed.
-
-(* strings.Split undoes strings.Join on separator-free pieces (non-empty list) *)
-Lemma split_join sep l :
-  l <> [] -> (forall g, In g l -> ~ In sep g) -> split_on sep (join [sep] l) = l.
-Proof.
-  induction l as [|x l IH]; intros Hne Hg; [contradiction|].
-  destruct l as [|y l].
-  - simpl. apply split_on_no_sep. apply Hg. left. reflexivity.
-  - change (join [sep] (x :: y :: l)) with (x ++ sep :: join [sep] (y :: l)).
-    rewrite split_on_app by (apply Hg; left; reflexivity). f_equal.
-    apply IH; [discriminate | intros g Hin; apply Hg; right; exact Hin].
-Qed.
-
-Lemma split_on_nonempty sep s : split_on sep s <> [].
-Proof. destruct s as [|c s]; simpl; [discriminate|]. destruct (N.eqb c sep); [discriminate|]. destruct (split_on sep s); discriminate. Qed.
-
-(* the pieces strings.Split returns contain no separator, and a non-empty string never splits to [""]:
-   the groups that reach auth's ValidateGroupMembership through /profile (authenticator.go:755-759)
-   satisfy the groups part of the guard *)
-Lemma split_on_pieces sep s g : In g (split_on sep s) -> ~ In sep g.
-Proof.
-  revert g. induction s as [|c s IH]; intros g H; simpl in H.
-  - destruct H as [<-|[]]. intros [].
-  - destruct (N.eqb c sep) eqn:E.
-    + destruct H as [<-|H]; [intros [] | apply IH; exact H].
-    + destruct (split_on sep s) as [|x r] eqn:Es.
-      * destruct H as [<-|[]]. intros [H|[]]. subst. rewrite N.eqb_refl in E. discriminate.
-      * destruct H as [<-|H].
-        -- intros [H|H]; [subst; rewrite N.eqb_refl in E; discriminate|]. apply (IH x); [left; reflexivity | exact H].
-        -- apply IH. right. exact H.
-Qed.
-
-Lemma split_on_not_lone_empty sep s : s <> [] -> is_lone_empty (split_on sep s) = false.
-Proof.
-  destruct s as [|c s]; intros H; [contradiction|]. simpl.
-  destruct (N.eqb c sep).
-  - pose proof (split_on_nonempty sep s). destruct (split_on sep s); [contradiction | reflexivity].
-  - destruct (split_on sep s) as [|x r]; reflexivity.
-Qed.
-
-Theorem profile_groups_guarded email form_value :
-  no_byte colon email = true ->
-  guard_groups email (match form_value with [] => [] | _ => split_on comma form_value end) = true.
-Proof.
-  intros He. unfold guard_groups. rewrite He. destruct form_value as [|c s]; [reflexivity|].
-  rewrite split_on_not_lone_empty by discriminate. rewrite andb_true_r. simpl andb.
-  apply forallb_forall. intros g Hin. apply no_byte_spec. apply (split_on_pieces comma (c :: s)). exact Hin.
-Qed.
-
-(* strings.Join with "," is injective on comma-free names, except for [] versus [""] *)
-Lemma join_injective l1 l2 :
-  (forall g, In g l1 -> ~ In comma g) -> (forall g, In g l2 -> ~ In comma g) ->
-  is_lone_empty l1 = false -> is_lone_empty l2 = false ->
-  join [comma] l1 = join [comma] l2 -> l1 = l2.
-Proof.
-  intros G1 G2 E1 E2 H.
-  destruct l1 as [|x1 r1], l2 as [|x2 r2]; [reflexivity | | |].
-  - pose proof (split_join comma (x2 :: r2)) as S. rewrite <- H in S. simpl in S.
-    rewrite <- S in E2 by (auto; discriminate). discriminate.
-  - pose proof (split_join comma (x1 :: r1)) as S. rewrite H in S. simpl in S.
-    rewrite <- S in E1 by (auto; discriminate). discriminate.
-  - rewrite <- (split_join comma (x1 :: r1)) by (auto; discriminate).
-    rewrite <- (split_join comma (x2 :: r2)) by (auto; discriminate). rewrite H. reflexivity.
-Qed.
-
 (* sort.Strings permutes *)
 Lemma insert_perm x l : Permutation (insert_str x l) (x :: l).
 Proof.
@@ -703,37 +624,6 @@ Proof.
 Qed.
 Lemma sort_perm l : Permutation (sort_strs l) l.
 Proof. induction l as [|x l IH]; simpl; [reflexivity|]. rewrite insert_perm. constructor. exact IH. Qed.
-
-Lemma sort_lone_empty l : is_lone_empty (sort_strs l) = is_lone_empty l.
-Proof.
-  pose proof (sort_perm l) as P.
-  destruct l as [|x [|y r]].
-  - reflexivity.
-  - reflexivity.
-  - apply Permutation_length in P. remember (sort_strs (x :: y :: r)) as l' eqn:El. clear El.
-    destruct l' as [|a [|b r']]; simpl in P; try discriminate.
-    simpl. destruct x, a; reflexivity.
-Qed.
-
-Lemma guard_groups_sorted email groups :
-  guard_groups email groups = true ->
-  ~ In colon email /\ (forall g, In g (sort_strs groups) -> ~ In comma g) /\ is_lone_empty (sort_strs groups) = false.
-Proof.
-  unfold guard_groups. rewrite !andb_true_iff, negb_true_iff. intros [[H1 H2] H3].
-  split; [apply no_byte_spec; exact H1|]. split.
-  - intros g Hin. apply no_byte_spec. rewrite forallb_forall in H2. apply H2.
-    eapply Permutation_in; [apply sort_perm | exact Hin].
-  - rewrite sort_lone_empty. exact H3.
-Qed.
-
-Lemma groups_key_injective e1 g1 e2 g2 :
-  guard_groups e1 g1 = true -> guard_groups e2 g2 = true ->
-  groups_key e1 g1 = groups_key e2 g2 -> e1 = e2 /\ sort_strs g1 = sort_strs g2.
-Proof.
-  intros G1 G2 H. apply guard_groups_sorted in G1 as [A1 [B1 C1]]. apply guard_groups_sorted in G2 as [A2 [B2 C2]].
-  unfold groups_key in H. simpl app in H. apply cut_first_sep in H as [H1 H2]; auto.
-  split; [exact H1|]. apply join_injective; auto.
-Qed.
 
 (* which argument shape an endpoint is used with *)
 Inductive qkind := KSession | KGroups | KToken.
@@ -765,37 +655,85 @@ Lemma wrapper_key_split q1 q2 :
   endpoint_name (q_endpoint q1) = endpoint_name (q_endpoint q2) /\ sub_key q1 = sub_key q2.
 Proof. unfold wrapper_key. simpl app. apply cut_first_sep; apply endpoint_name_no_slash. Qed.
 
-(* equal composite keys => same endpoint and same subject, under the guard *)
-Theorem keys_injective q1 q2 :
-  wf_question q1 = true -> wf_question q2 = true -> guard q1 = true -> guard q2 = true ->
-  wrapper_key q1 = wrapper_key q2 -> subject_of q1 = subject_of q2.
+(* the strings of a question are byte strings (a typing condition, not a guard) *)
+Definition q_bytes (q : question) : Prop :=
+  match q with
+  | QSession _ s al => bytes (s_access s) /\ bytes (s_refresh_token s) /\ all_bytes al
+  | QGroups _ email groups => bytes email /\ all_bytes groups
+  | QToken _ tok => bytes tok
+  end.
+
+Lemma all_bytes_sort l : all_bytes l -> all_bytes (sort_strs l).
 Proof.
-  intros W1 W2 G1 G2 H. apply wrapper_key_split in H as [Hn Hk].
-  pose proof (endpoint_name_kind _ _ Hn) as Hkind.
-  destruct q1 as [e1 s1 a1|e1 m1 g1|e1 t1], q2 as [e2 s2 a2|e2 m2 g2|e2 t2];
-    unfold wf_question in W1, W2; cbn [q_endpoint] in *;
-    destruct (endpoint_kind e1), (endpoint_kind e2); try discriminate; cbn [subject_of sub_key guard] in *.
-  - rewrite Hn, Hk. reflexivity.
-  - apply groups_key_injective in Hk as [-> ->]; auto. rewrite Hn. reflexivity.
-  - rewrite Hn, Hk. reflexivity.
+  unfold all_bytes. rewrite !Forall_forall. intros H x Hx. apply H.
+  eapply Permutation_in; [apply sort_perm | exact Hx].
 Qed.
 
-(* without the guard the statement is false: two different (email, groups) questions share a key *)
+Lemma list_key_injective a1 l1 a2 l2 :
+  bytes a1 -> all_bytes l1 -> bytes a2 -> all_bytes l2 ->
+  list_key a1 l1 = list_key a2 l2 -> a1 = a2 /\ sort_strs l1 = sort_strs l2.
+Proof.
+  intros A1 L1 A2 L2 H. unfold list_key, qq, ql in H. simpl app in H.
+  apply key_list_injective in H; auto using all_bytes_sort.
+Qed.
+
+Lemma pair_key_injective a1 b1 a2 b2 :
+  bytes a1 -> bytes b1 -> bytes a2 -> bytes b2 -> pair_key a1 b1 = pair_key a2 b2 -> a1 = a2 /\ b1 = b2.
+Proof.
+  intros A1 B1 A2 B2 H. unfold pair_key, qq in H. simpl app in H. apply key_pair_injective in H; auto.
+Qed.
+
+(* KEYS ARE INJECTIVE — no guard. For well-formed questions of one service (a group belongs to one
+   wrapper object of one service): equal composite keys => same method, same subject (the token;
+   the access AND refresh token for Revoke; the e-mail and the SORTED group list — i.e. the same
+   groups in any order, with multiplicity), and the same (sorted) allowed groups. *)
+Theorem keys_injective q1 q2 :
+  wf_question q1 = true -> wf_question q2 = true -> q_bytes q1 -> q_bytes q2 ->
+  service_of (q_endpoint q1) = service_of (q_endpoint q2) ->
+  wrapper_key q1 = wrapper_key q2 ->
+  q_endpoint q1 = q_endpoint q2 /\ subject_of q1 = subject_of q2 /\ allowed_of q1 = allowed_of q2.
+Proof.
+  intros W1 W2 B1 B2 Sv H. apply wrapper_key_split in H as [Hn Hk].
+  pose proof (endpoint_name_injective_per_service _ _ Sv Hn) as He.
+  destruct q1 as [e1 s1 a1|e1 m1 g1|e1 t1], q2 as [e2 s2 a2|e2 m2 g2|e2 t2];
+    cbn [q_endpoint] in *; subst e2; unfold wf_question in W1, W2; cbn [q_endpoint] in W1, W2;
+    destruct (endpoint_kind e1) eqn:K; try discriminate; (split; [reflexivity|]).
+  - destruct B1 as [B1a [B1r B1l]], B2 as [B2a [B2r B2l]].
+    destruct e1; try discriminate K; cbn [sub_key subject_of allowed_of session_token] in *.
+    + apply list_key_injective in Hk as [-> ->]; auto.
+    + apply list_key_injective in Hk as [-> ->]; auto.
+    + rewrite Hk. auto.
+    + rewrite Hk. auto.
+    + apply pair_key_injective in Hk as [-> ->]; auto.
+  - destruct B1 as [B1e B1g], B2 as [B2e B2g]. cbn [sub_key subject_of] in *.
+    apply list_key_injective in Hk as [-> ->]; auto.
+  - cbn [sub_key subject_of] in *. rewrite Hk. split; [reflexivity|]. destruct e1; reflexivity.
+Qed.
+
+(* ... and conversely: exactly these questions share a key *)
+Theorem keys_complete q1 q2 :
+  wf_question q1 = true -> wf_question q2 = true ->
+  q_endpoint q1 = q_endpoint q2 -> subject_of q1 = subject_of q2 -> allowed_of q1 = allowed_of q2 ->
+  wrapper_key q1 = wrapper_key q2.
+Proof.
+  intros W1 W2 He Hs Ha. unfold wrapper_key. rewrite He. f_equal. f_equal.
+  destruct q1 as [e1 s1 a1|e1 m1 g1|e1 t1], q2 as [e2 s2 a2|e2 m2 g2|e2 t2];
+    cbn [q_endpoint] in *; subst e2; unfold wf_question in W1, W2; cbn [q_endpoint] in W1, W2;
+    destruct (endpoint_kind e1) eqn:K; try discriminate.
+  - destruct e1; try discriminate K; cbn [sub_key subject_of allowed_of session_token] in *;
+      inversion Hs; unfold list_key, pair_key; congruence.
+  - cbn [sub_key subject_of] in *. inversion Hs. unfold list_key. congruence.
+  - cbn [sub_key subject_of] in *. inversion Hs. reflexivity.
+Qed.
+
+(* the pairs that used to collide (C16-K2, fixed by 4af0640) and the allowed groups that used to be
+   ignored (C16-K3, fixed by 8276927) now have different keys *)
 Definition bA : N := 97. Definition bB : N := 98. Definition bC : N := 99.
-Theorem keys_collide_colon :
-  exists q1 q2, wf_question q1 = true /\ wf_question q2 = true /\
-    wrapper_key q1 = wrapper_key q2 /\ subject_of q1 <> subject_of q2.
-Proof.
-  exists (QGroups AGroupMembership [bA] [[bB; colon; bC]]), (QGroups AGroupMembership [bA; colon; bB] [[bC]]).
-  repeat split; try reflexivity. discriminate.
-Qed.
-Theorem keys_collide_comma :
-  exists q1 q2, wf_question q1 = true /\ wf_question q2 = true /\
-    wrapper_key q1 = wrapper_key q2 /\ subject_of q1 <> subject_of q2.
-Proof.
-  exists (QGroups PUserGroups [bA] [[bB; comma; bC]]), (QGroups PUserGroups [bA] [[bB]; [bC]]).
-  repeat split; try reflexivity. discriminate.
-Qed.
+Example old_collisions_now_distinct :
+  wrapper_key (QGroups AGroupMembership [bA] [[bB; colon; bC]]) <> wrapper_key (QGroups AGroupMembership [bA; colon; bB] [[bC]]) /\
+  wrapper_key (QGroups PUserGroups [bA] [[bB; comma; bC]]) <> wrapper_key (QGroups PUserGroups [bA] [[bB]; [bC]]) /\
+  wrapper_key (QGroups AGroupMembership [bA] []) <> wrapper_key (QGroups AGroupMembership [bA] [[]]).
+Proof. repeat split; vm_compute; discriminate. Qed.
 
 (* ================= wrapper layer: the LTS with sessions ================= *)
 Lemma wrun_app w a b : wrun w (a ++ b) = match wrun w a with Some w' => wrun w' b | None => None end.
@@ -1002,14 +940,16 @@ Proof.
     + apply in_erase_enter. eauto.
 Qed.
 
-(* callers that share an execution asked about the same subject — under the guard *)
+(* callers that share an execution asked the same method about the same subject and the same
+   allowed groups — no guard *)
 Theorem merged_same_subject tr w t1 t2 c q1 q2 :
   wreach tr w -> in_call (w_g w) t1 c -> in_call (w_g w) t2 c ->
   In (WEnter t1 q1) tr -> In (WEnter t2 q2) tr ->
-  wf_question q1 = true -> wf_question q2 = true -> guard q1 = true -> guard q2 = true ->
-  subject_of q1 = subject_of q2.
+  wf_question q1 = true -> wf_question q2 = true -> q_bytes q1 -> q_bytes q2 ->
+  service_of (q_endpoint q1) = service_of (q_endpoint q2) ->
+  q_endpoint q1 = q_endpoint q2 /\ subject_of q1 = subject_of q2 /\ allowed_of q1 = allowed_of q2.
 Proof.
-  intros Hr I1 I2 E1 E2 W1 W2 G1 G2. apply keys_injective; auto.
+  intros Hr I1 I2 E1 E2 W1 W2 B1 B2 Sv. apply keys_injective; auto.
   apply (distinct_keys_never_merge _ _ t1 t2 c _ _ (wreach_erase _ _ Hr)); auto; apply in_erase_enter; eauto.
 Qed.
 
@@ -1092,7 +1032,7 @@ Qed.
 Example keys_injective_nv :
   let q1 := QGroups AGroupMembership [bA; 64; bB] [[bB]; [bA]] in
   let q2 := QGroups AGroupMembership [bA; 64; bB] [[bA]; [bB]] in
-  q1 <> q2 /\ wf_question q1 = true /\ wf_question q2 = true /\ guard q1 = true /\ guard q2 = true /\
+  q1 <> q2 /\ wf_question q1 = true /\ wf_question q2 = true /\
   wrapper_key q1 = wrapper_key q2 /\ subject_of q1 = subject_of q2.
 Proof. repeat split; try reflexivity. discriminate. Qed.
 
@@ -1140,50 +1080,31 @@ Proof.
 Qed.
 
 (* ================= the key and the allowed groups ================= *)
-(* the composite key of the proxy's ValidateSessionState / RefreshSession ignores the allowed
-   groups argument although the inner provider's answer depends on it *)
-Theorem keys_ignore_allowed_groups e s al1 al2 :
-  wrapper_key (QSession e s al1) = wrapper_key (QSession e s al2) /\
-  subject_of (QSession e s al1) = subject_of (QSession e s al2).
-Proof. split; reflexivity. Qed.
-
-Definition gT : str := [116].
-Theorem allowed_groups_not_in_key_refuted :
-  exists q1 q2, wf_question q1 = true /\ wf_question q2 = true /\ guard q1 = true /\ guard q2 = true /\
-    wrapper_key q1 = wrapper_key q2 /\ allowed_of q1 <> allowed_of q2.
+(* since 8276927 the composite key of the proxy's ValidateSessionState / RefreshSession contains the
+   (sorted) allowed groups: questions that differ in them never share a key *)
+Theorem allowed_groups_in_key e s1 s2 al1 al2 :
+  e = PValidate \/ e = PRefresh ->
+  q_bytes (QSession e s1 al1) -> q_bytes (QSession e s2 al2) ->
+  wrapper_key (QSession e s1 al1) = wrapper_key (QSession e s2 al2) -> sort_strs al1 = sort_strs al2.
 Proof.
-  exists (QSession PValidate w_session [[bA]]), (QSession PValidate w_session [[bB]]).
-  repeat split; try reflexivity. vm_compute. discriminate.
+  intros He B1 B2 H.
+  assert (wf_question (QSession e s1 al1) = true /\ wf_question (QSession e s2 al2) = true) as [W1 W2]
+    by (destruct He; subst; split; reflexivity).
+  destruct (keys_injective _ _ W1 W2 B1 B2 eq_refl H) as [_ [_ Ha]].
+  destruct He; subst; exact Ha.
 Qed.
 
-(* in a deployment-shaped run — every question put to a wrapper object carries that object's
-   allowed groups, as proxy.New arranges (one wrapper object per upstream, oauthproxy.go:619) —
-   callers that share an execution asked about the same subject INCLUDING the allowed groups *)
-Theorem merged_same_full_subject tr m a cfg t1 t2 c q1 q2 :
+(* several wrapper objects: sharers (necessarily of one object) asked about the same full subject *)
+Theorem merged_same_full_subject tr m a t1 t2 c q1 q2 :
   mreach tr m ->
-  (forall t e s al, In (a, WEnter t (QSession e s al)) tr -> e = PValidate \/ e = PRefresh -> sort_strs al = cfg) ->
   in_call (w_g (component m a)) t1 c -> in_call (w_g (component m a)) t2 c ->
   In (a, WEnter t1 q1) tr -> In (a, WEnter t2 q2) tr ->
-  wf_question q1 = true -> wf_question q2 = true -> guard q1 = true -> guard q2 = true ->
+  wf_question q1 = true -> wf_question q2 = true -> q_bytes q1 -> q_bytes q2 ->
   service_of (q_endpoint q1) = service_of (q_endpoint q2) ->
-  subject_of q1 = subject_of q2 /\ allowed_of q1 = allowed_of q2.
+  q_endpoint q1 = q_endpoint q2 /\ subject_of q1 = subject_of q2 /\ allowed_of q1 = allowed_of q2.
 Proof.
-  intros H Hcfg I1 I2 E1 E2 W1 W2 G1 G2 Sv. pose proof (mreach_project _ _ H a) as Hw.
-  assert (subject_of q1 = subject_of q2) as Hs.
-  { apply (merged_same_subject (project a tr) (component m a) t1 t2 c q1 q2); auto; apply in_project; assumption. }
-  split; [exact Hs|].
-  destruct q1 as [e1 s1 al1|e1 x1 g1|e1 k1], q2 as [e2 s2 al2|e2 x2 g2|e2 k2];
-    try discriminate Hs; try reflexivity; cbn [subject_of q_endpoint] in *.
-  - inversion Hs as [[Hn Htok]]. pose proof (endpoint_name_injective_per_service _ _ Sv Hn) as He. subst e2.
-    destruct e1; try reflexivity; cbn [allowed_of].
-    + rewrite (Hcfg _ _ _ _ E1), (Hcfg _ _ _ _ E2); auto.
-    + rewrite (Hcfg _ _ _ _ E1), (Hcfg _ _ _ _ E2); auto.
-  - inversion Hs as [[Hn Htok]]. apply endpoint_name_kind in Hn.
-    unfold wf_question in W1, W2. cbn [q_endpoint] in W1, W2. rewrite Hn in W1.
-    destruct (endpoint_kind e2); discriminate.
-  - inversion Hs as [[Hn Htok]]. apply endpoint_name_kind in Hn.
-    unfold wf_question in W1, W2. cbn [q_endpoint] in W1, W2. rewrite Hn in W1.
-    destruct (endpoint_kind e2); discriminate.
+  intros H I1 I2 E1 E2 W1 W2 B1 B2 Sv. pose proof (mreach_project _ _ H a) as Hw.
+  apply (merged_same_subject (project a tr) (component m a) t1 t2 c q1 q2); auto; apply in_project; assumption.
 Qed.
 
 (* ================= the execution log ================= *)
